@@ -15,6 +15,7 @@
 -/
 import ChumskyModel.Model.Input
 import ChumskyModel.Proofs.Lemmas.KindSim
+import ChumskyModel.Proofs.Lemmas.PrattKind
 
 namespace Chumsky
 open Input
@@ -342,6 +343,19 @@ theorem c10_same_acceptance (env : Env) (hs : env.kind = .slice) (k : InKind) (t
 /-- the `constOk` proviso is needed: a span-valued constant is not re-based by the real parsers either -/
 example : (G.to (.span 0 1) .empty).constOk = false := by decide
 
+/-- **C10 for Pratt parsers** (`Model/Pratt.lean`; C09's class is built from the C01 class): `atom.pratt(ops)` under any
+    representation of the same tokens is the index-based run with every span — those handed to the fold callbacks of the
+    operators, those inside errors — re-based, and nothing else -/
+theorem c10_pratt_kind_invariant (env : Env) (hs : env.kind = .slice) (k : InKind) (ts : List (Nat × Nat))
+    (e : Nat × Nat) (hd : constOkL env.defs = true) (fuel : Nat) (m : Mode) (atom : G) (hatom : atom.constOk = true)
+    (ops : List PrattOp)
+    (hops : ∀ o ∈ ops, (match o with | .infix _ _ g => g | .prefix _ g => g | .postfix _ g => g).constOk = true)
+    (st : St) :
+    let env' : Env := { env with kind := k, tspans := ts, eoi := e }
+    runPratt fuel env' m atom ops (st.mapSp env'.rebase) = (runPratt fuel env m atom ops st).mapSp env'.rebase :=
+  runPratt_kindSim env hs k ts e hd fuel m atom hatom ops hops st
+
+#print axioms c10_pratt_kind_invariant
 #print axioms replay_agrees
 #print axioms replay_locs
 #print axioms stream_sim
